@@ -68,6 +68,9 @@ fn structured(other_keys: &[Vec<u8>]) -> Vec<FinalReply> {
         FinalReply::BerForm(1),
         FinalReply::BerForm(2),
         FinalReply::BerForm(3),
+        FinalReply::BerForm(4),
+        FinalReply::BerForm(5),
+        FinalReply::BerForm(6),
         FinalReply::ExtraTrailingField,
         FinalReply::MissingPubKeyAuth,
         FinalReply::EmptyPubKeyAuth,
@@ -192,9 +195,10 @@ impl Prop for C01 {
         let key_a = acceptor(Cert::A)?.1;
         let key_b = acceptor(Cert::B)?.1;
         let key_m = acceptor(Cert::M)?.1;
+        let key_p = acceptor(Cert::P521)?.1;
         for (ci, cfg) in cfgs.iter().enumerate() {
-            for cert in [Cert::A, Cert::B, Cert::M] {
-                if cert == Cert::M && ci != 0 {
+            for cert in [Cert::A, Cert::B, Cert::M, Cert::P521] {
+                if (cert == Cert::M && ci != 0) || (cert == Cert::P521 && ci != 0 && ci != 4) {
                     continue;
                 }
                 // honest run: must succeed, and tells the length of the honest reply
@@ -217,6 +221,7 @@ impl Prop for C01 {
                 let klen = match cert {
                     Cert::B => key_b.len(),
                     Cert::M => key_m.len(),
+                    Cert::P521 => key_p.len(),
                     _ => key_a.len(),
                 };
                 for n in (0..klen).step_by(if full { 1 } else { 29 }) {
@@ -317,7 +322,7 @@ impl Prop for C01 {
         json!({"idx": idx, "config": configs()[c.cfg_id], "certificate": c.cert, "final_round_reply": c.reply, "challenge_flags_left_out": format!("{:#x}", c.challenge_without)})
     }
     fn rule(&self) -> String {
-        "cases = (connector configuration, server certificate, reply of the server in the final CredSSP round). Configurations: 3 credential sets x password|hash x {plain, restricted admin, blank credentials}; certificates RSA-2048, EC P-256 (+ an untrusted RSA key for the relay case). Replies: honest; every single-bit flip of the honest TSRequest; key+d for every d in [-256,256] except 1 and key +- 2^j for every j up to 248, correctly sealed; sealed with client-to-server keys / another session key / wrong signing key / wrong sealing key / advanced cipher stream; honest reply for another certificate's key (relay); reflection of the client's token; every truncation; extensions; the honest value re-encoded as BER-but-not-DER (long-form lengths everywhere / only on the version field, indefinite-length outer SEQUENCE / [3] wrapper, constructed OCTET STRING) which CredSSP's DER rules make a malformed encoding and which must be refused; extra field, missing/empty pubKeyAuth, wrong context tag, versions 0/3/6; EOF. Full alphabet for two configurations in quick (every 13th bit / 7th truncation elsewhere), for all in thorough. Also: an Ed25519 certificate whose raw key starts with 0xFF (carry of key+1) with every offset -300..300 and +-2^j; the CHALLENGE of the earlier round leaving out SIGN / ALWAYS_SIGN / SEAL / 56 / TARGET_TYPE flags x structured replies x bit flips. Also: one authentication object (Ntlm) used for two sessions through x224::Client::connect, the second server replaying the first server's final reply (4 configurations x 2 certificates). Oracle: honest => credentials released and well formed; must-reject => connect returns Err, the server's TLS endpoint receives zero application bytes after its reply, and the client does not ask the (still open) transport for more bytes after the reply was delivered; don't-care (same integer, other spelling) => if accepted the value was right. Non-trivial: every reply but the honest one.".into()
+        "cases = (connector configuration, server certificate, reply of the server in the final CredSSP round). Configurations: 3 credential sets x password|hash x {plain, restricted admin, blank credentials}; certificates RSA-2048, EC P-256, EC P-521 (every DER length of the round then lies in 128..255) (+ an untrusted RSA key for the relay case). Replies: honest; every single-bit flip of the honest TSRequest; key+d for every d in [-256,256] except 1 and key +- 2^j for every j up to 248, correctly sealed; sealed with client-to-server keys / another session key / wrong signing key / wrong sealing key / advanced cipher stream; honest reply for another certificate's key (relay); reflection of the client's token; every truncation; extensions; the honest value re-encoded as BER-but-not-DER (long-form lengths everywhere / only on the version field, exactly one redundant leading zero octet on every length / on the outer SEQUENCE / on the OCTET STRING, indefinite-length outer SEQUENCE / [3] wrapper, constructed OCTET STRING) which CredSSP's DER rules make a malformed encoding and which must be refused; extra field, missing/empty pubKeyAuth, wrong context tag, versions 0/3/6; EOF. Full alphabet for two configurations in quick (every 13th bit / 7th truncation elsewhere), for all in thorough. Also: an Ed25519 certificate whose raw key starts with 0xFF (carry of key+1) with every offset -300..300 and +-2^j; the CHALLENGE of the earlier round leaving out SIGN / ALWAYS_SIGN / SEAL / 56 / TARGET_TYPE flags x structured replies x bit flips. Also: one authentication object (Ntlm) used for two sessions through x224::Client::connect, the second server replaying the first server's final reply (4 configurations x 2 certificates). Oracle: honest => credentials released and well formed; must-reject => connect returns Err, the server's TLS endpoint receives zero application bytes after its reply, not one raw byte (TLS alert or closure record) is written on the transport after it, and the client does not ask the (still open) transport for more bytes after the reply was delivered; don't-care (same integer, other spelling) => if accepted the value was right. Non-trivial: every reply but the honest one.".into()
     }
     fn assumptions(&self) -> Vec<String> {
         vec![
@@ -384,6 +389,13 @@ impl Prop for C01 {
                 None => 0,
             }
         };
+        let raw_after_reply: usize = {
+            let sh = t.sh.borrow();
+            match sh.trace.iter().rposition(|e| matches!(e, crate::memlink::Ev::SW(_))) {
+                Some(i) => sh.trace[i..].iter().map(|e| if let crate::memlink::Ev::CW(n, _) = e { *n } else { 0 }).sum(),
+                None => 0,
+            }
+        };
         let released = pr.srv.creds.is_some() || pr.srv.log.iter().any(|m| m.name == "cssp_credentials");
         let after = pr.srv.bytes_after_final_reply;
         let kind = format!("{:?}", c.reply).split(|ch| ch == '(' || ch == ' ').next().unwrap_or("").to_string();
@@ -404,6 +416,10 @@ impl Prop for C01 {
                 }
                 if t.client.is_some() {
                     return Outcome::fail("mismatch", format!("connect-ok-after-{}", kind), format!("reply {:?}", c.reply));
+                }
+                // "writes nothing further on the link": not a TLS record either (alert, close_notify) once the reply is in
+                if raw_after_reply > 0 && !matches!(c.reply, FinalReply::Eof | FinalReply::Truncate(0)) {
+                    return Outcome::fail("mismatch", format!("client-wrote-on-the-link-after-{}", kind), format!("reply {:?}: {} raw bytes written on the transport after the reply was queued (no application data reached the server: a TLS alert or closure record)", c.reply, raw_after_reply));
                 }
                 // (Eof: the server closed; Truncate(0): the server sent nothing at all — waiting is then legitimate)
                 if waits > 0 && !matches!(c.reply, FinalReply::Eof | FinalReply::Truncate(0)) {
